@@ -8,18 +8,18 @@ which both the ℚ model and the `f64` code are instances.
 namespace Chem
 
 /-- loop variables `(p_i, factorial_acc)` -/
-structure PState where
+structure PoisState where
   p : Rat
   f : Rat
 deriving Repr
 
 /-- body of iteration `i ≥ 1`: `p_i *= lambda; factorial_acc *= i` -/
-def pNext (lam : Rat) (s : PState) (i : Nat) : PState := ⟨s.p * lam, s.f * (i : Rat)⟩
+def pNext (lam : Rat) (s : PoisState) (i : Nat) : PoisState := ⟨s.p * lam, s.f * (i : Rat)⟩
 
-def PState.cur (s : PState) : Rat := s.p / s.f
+def PoisState.cur (s : PoisState) : Rat := s.p / s.f
 
 /-- the intensities pushed by iterations `i, i+1, …` (`k` of them) -/
-def poissonInts (lam : Rat) : Nat → Nat → PState → List Rat
+def poissonInts (lam : Rat) : Nat → Nat → PoisState → List Rat
   | 0, _, _ => []
   | k + 1, i, s => let s' := pNext lam s i; s'.cur :: poissonInts lam k (i + 1) s'
 
@@ -33,7 +33,7 @@ def poisson (mass : Rat) (n : Nat) (z : Int) (lambdaFactor neutronShift proton :
     { mz := chargedMz (mass + ((i : Nat) : Rat) * neutronShift) z proton, int := x / tot })
 
 /-- `poisson_approximate_n_peaks_of_impl`: the `for i in 1..max_iter` loop -/
-def poissonNLoop (lam target : Rat) (maxIter : Nat) : Nat → Nat → PState → Rat → Nat
+def poissonNLoop (lam target : Rat) (maxIter : Nat) : Nat → Nat → PoisState → Rat → Nat
   | 0, _, _, _ => maxIter
   | fuel + 1, i, s, acc =>
     if i < maxIter then
@@ -46,7 +46,7 @@ def poissonN (mass lambdaFactor t : Rat) (maxIter : Nat) : Nat :=
   poissonNLoop (mass / lambdaFactor) (1 - t) maxIter maxIter 1 ⟨1, 1⟩ 1
 
 /-- the ratios `cur/acc` the loop compares, for iterations `i, i+1, …` (`k` of them) -/
-def poissonRatios (lam : Rat) : Nat → Nat → PState → Rat → List Rat
+def poissonRatios (lam : Rat) : Nat → Nat → PoisState → Rat → List Rat
   | 0, _, _, _ => []
   | k + 1, i, s, acc =>
     let s' := pNext lam s i
